@@ -30,6 +30,27 @@ type Dom[T comparable] struct {
 	Fmt   func(T) string
 }
 
+// magnitude gives un-normalised comparators result sizes from all ranges a
+// real comparator (a-b on small ints, on timestamps, on hashes) produces:
+// 2..1000, just above 2^8, 2^15, 2^31, and around 2^62. Only the sign means
+// anything.
+func magnitude(x uint64) int {
+	switch x % 6 {
+	case 0:
+		return 2 + int(x%999)
+	case 1:
+		return 1<<8 + int(x%7)
+	case 2:
+		return 1<<15 + int(x%7)
+	case 3:
+		return 1<<31 + int(x%1000)
+	case 4:
+		return 1<<32 + 1
+	default:
+		return 1<<62 - int(x%1000)
+	}
+}
+
 func floorDiv(a, b int) int {
 	q := a / b
 	if (a%b != 0) && ((a < 0) != (b < 0)) {
@@ -44,14 +65,14 @@ var intCmps = []NamedCmp[int]{
 	{"coarse12", func(a, b int) int { return cmp.Compare(floorDiv(a, 12), floorDiv(b, 12)) }},
 	// a valid order whose results are not normalised to -1/0/+1 (like a-b,
 	// but without overflow): only the sign carries meaning
-	{"natural-unnormalised", func(a, b int) int { return cmp.Compare(a, b) * (1 + int((uint64(a)^uint64(b))%1000)) }},
+	{"natural-unnormalised", func(a, b int) int { return cmp.Compare(a, b) * magnitude(uint64(a)^uint64(b)) }},
 }
 
 var strCmps = []NamedCmp[string]{
 	{"natural", func(a, b string) int { return strings.Compare(a, b) }},
 	{"reversed", func(a, b string) int { return strings.Compare(b, a) }},
 	{"caseless", func(a, b string) int { return strings.Compare(strings.ToLower(a), strings.ToLower(b)) }},
-	{"natural-unnormalised", func(a, b string) int { return strings.Compare(a, b) * (1 + 97*(len(a)+len(b))) }},
+	{"natural-unnormalised", func(a, b string) int { return strings.Compare(a, b) * magnitude(uint64(len(a)*31+len(b))) }},
 }
 
 // IntDom: alphabet values are spaced by 6 so that probes strictly between
@@ -105,7 +126,7 @@ var skCmps = []NamedCmp[SK]{
 	{"natural", skCmp},
 	{"reversed", func(a, b SK) int { return skCmp(b, a) }},
 	{"by-A-only", func(a, b SK) int { return cmp.Compare(a.A, b.A) }}, // many ties between distinguishable keys
-	{"natural-unnormalised", func(a, b SK) int { return skCmp(a, b) * (1 + 131*(len(a.B)+len(b.B)+1)) }},
+	{"natural-unnormalised", func(a, b SK) int { return skCmp(a, b) * magnitude(uint64(a.A)^uint64(b.A)^uint64(len(a.B))) }},
 }
 
 // StructDom: n alphabet values {A: i/2*6, B: "x" or "y"}; probes lie between.
